@@ -50,7 +50,8 @@ func rayIntersectsTri(tri intersectingTri, ray geometry.Ray, minDistance, maxDis
 		return false
 	}
 
-	if tVal > maxDistance {
+	// tVal is measured from the shifted origin, maxDistance from the ray's
+	if tVal+minDistance > maxDistance {
 		return false
 	}
 
